@@ -552,3 +552,48 @@ Qed.
 (** The carved-out corner is real: unify_path("..") = ".." . *)
 Lemma unify_path_bare_parent : unify_path dd = Some dd.
 Proof. reflexivity. Qed.
+
+(** ---------------------------------------------------------------- what "never steps above" means *)
+(** [stays_below d l]: starting [d] levels below a base directory, following [l] never leaves the base: the walk
+    ends in the base or below it, whatever the base is. *)
+Lemma stays_below_follow l : forall d (pre base : list str),
+  stays_below d l = true -> List.length pre = d ->
+  exists extra, follow (pre ++ base) l = Some (extra ++ base).
+Proof.
+  induction l as [|c r IH]; intros d pre base H Hl; cbn [stays_below follow] in *.
+  - now exists pre.
+  - destruct (is_dotdot c).
+    + destruct d as [|d']; [discriminate|]. destruct pre as [|x pre']; [discriminate|].
+      cbn [app]. apply (IH d' pre' base H). now inversion Hl.
+    + apply (IH (S d) (c :: pre) base H). cbn [List.length]. now rewrite Hl.
+Qed.
+
+(** unify_path, semantically: an accepted pack path followed from ANY base directory ends in that directory or
+    below it and never leaves it on the way -- except the bare '..' corner, which is exactly the parent. *)
+Theorem unify_path_follows_below_base p r : unify_path p = Some r ->
+  (forall base : list str, exists extra, follow base (segs r) = Some (extra ++ base))
+  \/ (segs r = [dd] /\ forall b base, follow (b :: base) (segs r) = Some base).
+Proof.
+  intros H. destruct (unify_path_no_parent p r H) as [Hs|Hc].
+  - left. intros base. exact (stays_below_follow (segs r) 0 [] base Hs eq_refl).
+  - right. split; [exact Hc|]. intros b base. rewrite Hc. reflexivity.
+Qed.
+
+(** '..' can only be the LAST segment of an accepted pack path (stronger than the depth statement). *)
+Theorem unify_path_dotdot_only_last p r : unify_path p = Some r -> dd_only_last (segs r).
+Proof.
+  unfold unify_path. destruct (has_parent_ref (unbackslash (normpath p))) eqn:E; [discriminate|].
+  intros H. inversion H; subst. rewrite segs_lstrip.
+  unfold segs. apply dd_only_last_filter. now apply no_parent_ref_split.
+Qed.
+
+(** The two cases of [unify_path_no_parent] exclude each other, and both occur. *)
+Lemma unify_path_corner_exclusive l : l = [dd] -> stays_below 0 l = false.
+Proof. intros ->. reflexivity. Qed.
+
+Lemma unify_path_cases_occur :
+  unify_path (s2l "a\..") = Some (s2l "a/..") /\
+  stays_below 0 (segs (s2l "a/..")) = true /\ unify_path (s2l "a\..\b") = None /\
+  unify_path (s2l ".\..") = Some (s2l "./..") /\ segs (s2l "./..") = [dd] /\
+  unify_path (s2l "..\..") = None /\ unify_path (s2l "a/../../b") = None.
+Proof. vm_compute. repeat split. Qed.
